@@ -644,6 +644,35 @@ pub fn run(out: &mut Out, tier: &str, seed: u64, prop: &str) {
             }
             out.stat("c01.environment_api");
         }
+        // field values with blanks, tabs and line breaks at either end (as `platform.version()` output may have): every way of
+        // making an environment — builder, setter, serde — keeps the text exactly, and evaluation reads exactly that text
+        for field in 0..8usize {
+            for val in ["x\n", "\nx", "x ", " x", "x\r\n", "\t", "x\u{a0}", "\n", "#1 SMP Fri Apr 25 13:07:35 EDT 2014\n", " \u{3000}x\u{3000} "] {
+                let mut c = CEnv::default_env();
+                c.strs[field] = val.to_string();
+                let built = c.env();
+                let via_setter = {
+                    let base = CEnv::default_env().env();
+                    match field { 0 => base.with_implementation_name(val), 1 => base.with_os_name(val), 2 => base.with_platform_machine(val), 3 => base.with_platform_python_implementation(val),
+                        4 => base.with_platform_release(val), 5 => base.with_platform_system(val), 6 => base.with_platform_version(val), _ => base.with_sys_platform(val) }
+                };
+                let via_serde = serde_json::to_value(&via_setter).ok().and_then(|v| serde_json::from_value::<pep508_rs::MarkerEnvironment>(v).ok());
+                let read = |e: &pep508_rs::MarkerEnvironment| -> String { [e.implementation_name(), e.os_name(), e.platform_machine(), e.platform_python_implementation(), e.platform_release(), e.platform_system(), e.platform_version(), e.sys_platform()][field].to_string() };
+                out.evaluations += 1;
+                let fname = ["implementation_name", "os_name", "platform_machine", "platform_python_implementation", "platform_release", "platform_system", "platform_version", "sys_platform"][field];
+                let input = serde_json::json!({"field": fname, "value": val});
+                if read(&built) != val || read(&via_setter) != val || via_serde.as_ref().map(|e| read(e)) != Some(val.to_string()) || built != via_setter {
+                    out.oracle_fail("C01", "an environment field with whitespace at an end is not kept exactly by the builder / the setter / serde (or the three disagree)", input.clone());
+                }
+                // key index of the canonical spelling of that field in the harness's key table
+                let key = [0usize, 1, 3, 5, 8, 9, 10, 12][field];
+                for (t, want) in [(Term::S(key, 0, val.to_string()), true), (Term::S(key, 1, val.to_string()), false), (Term::S(key, 0, val.trim().to_string()), val.trim() == val)] {
+                    let m = t.build();
+                    if m.evaluate(&built, &[]) != want { out.oracle_fail("C01", "a comparison with a field value that has whitespace at an end is evaluated against another text", input.clone()); }
+                }
+                out.stat("c01.environment_whitespace_values");
+            }
+        }
     }
     for t in terms {
         let Some(text) = layout(&mut rng, &t, true) else { continue };
